@@ -103,6 +103,8 @@ def oracle_member(case, ctx):
         rep = guarded(ctx, f'make_{kind}_representation({name})', reps.make_rep, kind, name, shape, space)
         arrays = guarded(ctx, f'{kind}/{name}.convert', reps.convert, kind, rep, d)
         check_in_space(ctx, f'{kind}/{name} {shape} types {space["types"]} colours {space["colors"]}', rep.space, arrays, keys)
+    at_gym = kind == 'state' and max(shape) <= 12 and 'Hidden' not in space['types'] and 'NoneGridObject' not in space['types']
+    with_sibling = at_gym and gym_layer(ctx, case)
     objs_in = [o for r in d['grid'] for o in r] + [d['agent'][3]]
     tmax = max(M.BUILTIN_TYPE_ORDER.index(t) for t in space['types'])
     cmax = max(M.COLOR_VALUE[c] for c in space['colors'])
@@ -121,7 +123,65 @@ def oracle_member(case, ctx):
         cl.append('agent_x>=height')
     if max(shape) >= 127:
         cl.append('long_grid')
+    if at_gym:
+        cl.append('gym_layer')
+    if with_sibling:
+        cl.append('gym_layer_after_sibling_space')
     ctx.ev.case(case, nt=len(cl) > 1, classes=cl, sample=({'kind': kind, 'space': space, 'member': {'shape': list(shape), 'agent': d['agent'], 'top_rows': d['grid'][:2]}} if max(shape) > 12 else None))
+
+
+def sibling_space(space):
+    """the same space with one type below the highest toggled (Door first): same shape, colours and highest type index, other statuses"""
+    order = M.BUILTIN_TYPE_ORDER
+    ts = list(space['types'])
+    tmax = max(order.index(t) for t in ts)
+    for cand in ['Door', 'Key', 'Wall', 'Floor', 'Exit', 'MovingObstacle', 'Telepod']:
+        if order.index(cand) < tmax:
+            ts = [t for t in ts if t != cand] if cand in ts else ts + [cand]
+            return {'types': ts, 'colors': list(space['colors'])}
+    return None
+
+
+GYM_COMP = {'chain': ['move_agent'], 'rewards': [{'name': 'living_reward'}], 'term': {'name': 'reach_exit'}, 'obs': 'fully_transparent', 'view': [3, 3]}
+
+
+def gym_layer(ctx, case):
+    """the member as the state of an environment behind OuterEnv and GymEnvironment: what the adapter hands out lies inside the spaces
+    the adapter advertises -- whether the representation was given to the constructor or chosen with the setters, and whatever
+    other environments (here: one over a sibling space of the same shape) were configured earlier in the process"""
+    space, d = case['space'], case['member']
+    shape = M.shape(d)
+    sib = sibling_space(space)
+    worlds = []
+    if sib is not None:
+        ex = reps.all_objects(sib, 'state')
+        g = [[ex[(y * shape[1] + x) % len(ex)] for x in range(shape[1])] for y in range(shape[0])]
+        worlds.append((sib, {'grid': g, 'agent': [0, 0, 'F', '_']}, 'sibling space'))
+    worlds.append((space, d, 'member'))
+    for k, name in enumerate(reps.NAMES):
+        other = reps.NAMES[(k + 1) % 3]
+        for route in ('constructor', 'setters'):
+            for sp, world, label in worlds:
+                inner = guarded(ctx, 'GridWorld', envs.mk_env, sp, shape, GYM_COMP, reset_state=world)
+                first = name if route == 'constructor' else other
+                outer = OuterEnv(inner, state_representation=make_state_representation(first, inner.state_space),
+                                 observation_representation=make_observation_representation(first, inner.observation_space))
+                env = GymEnvironment(outer)
+                if route == 'setters':
+                    guarded(ctx, 'set_state_representation', env.set_state_representation, name)
+                    guarded(ctx, 'set_observation_representation', env.set_observation_representation, name)
+                obs = guarded(ctx, 'gym reset', env.reset)
+                st_ = env.state
+                what = f'gym layer [{name} via {route}] {label} {shape} types {sp["types"]} colours {sp["colors"]}'
+                if not env.state_space.contains(st_):
+                    bad = [q for q in st_ if not env.state_space[q].contains(st_[q])]
+                    ctx.fail(f'{what}: state outside the advertised gym state_space (keys {bad})', {'kind': 'gym_space'})
+                if not env.observation_space.contains(obs):
+                    bad = [q for q in obs if not env.observation_space[q].contains(obs[q])]
+                    ctx.fail(f'{what}: observation outside the advertised gym observation_space (keys {bad})', {'kind': 'gym_space'})
+                check_in_space(ctx, what + ' state', outer.state_representation.space, st_, STATE_KEYS)
+                check_in_space(ctx, what + ' observation', outer.observation_representation.space, obs, OBS_KEYS)
+    return sib is not None
 
 
 # ------------------------------------------------------------------ (b) every object of a space in the item channel and in a cell
@@ -272,8 +332,8 @@ def oracle_hist(case, ctx):
 
 CHECKS = [
     Check('members', oracle_member, strategy=strat_member, examples={'quick': 500, 'thorough': 2000}, shards={'quick': 4, 'thorough': 16},
-          rule='type subset x colour subset x shape (states >= 2x2, views odd width; one case in six tiled to a long grid with a dimension of 40..300, around the 127/128 and 255/256 boundaries) x member built to contain the extremes x 3 representations: key by key inside the declared space, own bounds/dtype check, gym Box and Dict',
-          required=['max_type', 'locked_door', 'max_colour', 'agent_corner', 'nonsquare', 'agent_x>=height', 'state', 'obs', 'long_grid']),
+          rule='type subset x colour subset x shape (states >= 2x2, views odd width; one case in six tiled to a long grid with a dimension of 40..300, around the 127/128 and 255/256 boundaries) x member built to contain the extremes x 3 representations: key by key inside the declared space, own bounds/dtype check, gym Box and Dict; small state members also as the state of an environment behind OuterEnv and GymEnvironment (representation given to the constructor and chosen with the setters, after an environment over a sibling space of the same shape)',
+          required=['max_type', 'locked_door', 'max_colour', 'agent_corner', 'nonsquare', 'agent_x>=height', 'state', 'obs', 'long_grid', 'gym_layer', 'gym_layer_after_sibling_space']),
     Check('all_objects', oracle_objects, enumerate=enum_objects, shards={'quick': 16, 'thorough': 16}, exhaustive=True,
           rule='all 2^9-1 type subsets x 4 colour subsets (16 thorough): every object of the space as a grid cell and as the held item, for states and observations x 3 representations'),
     Check('trajectories', oracle_hist, strategy=strat_hist, examples={'quick': 4, 'thorough': 12}, shards={'quick': 4, 'thorough': 16},
